@@ -54,6 +54,25 @@ def _lit_set(test):
     return None, None
 
 
+def is_raw_field(expr, func, key):
+    """expr is <dict>['key'] itself or a name all of whose definitions are."""
+    def sub(e):
+        return isinstance(e, ast.Subscript) and isinstance(e.slice, ast.Constant) and e.slice.value == key
+    if sub(expr):
+        return True
+    if isinstance(expr, ast.Name):
+        ds = defs_of(func.node, expr.id)
+        return bool(ds) and all(sub(v) for v, _ in ds)
+    return False
+
+
+def _membership_operand(test):
+    for c in ast.walk(test):
+        if isinstance(c, ast.Compare) and len(c.ops) == 1 and isinstance(c.ops[0], (ast.In, ast.NotIn)):
+            return c.left
+    return None
+
+
 def v_dict(test, func, raising_when_true):
     return 'isinstance' in norm(test) and 'dict' in norm(test)
 
@@ -67,7 +86,7 @@ def v_order(test, func, rwt):
     if 'arrayorder' not in norm(test):
         return False
     s, notin = _lit_set(test)
-    return s == {'C', 'F'} and notin == rwt
+    return s == {'C', 'F'} and notin == rwt and is_raw_field(_membership_operand(test), func, 'arrayorder')
 
 
 def v_numtype(test, func, rwt):
@@ -76,6 +95,8 @@ def v_numtype(test, func, rwt):
         return False
     if 'numtypesdescr' not in t:
         return False
+    if not is_raw_field(_membership_operand(test), func, 'numtype'):
+        return False      # a transformed value is validated, not the stored one
     return any(isinstance(o, ast.NotIn) == rwt for c in ast.walk(test) if isinstance(c, ast.Compare)
                for o in c.ops if isinstance(o, (ast.In, ast.NotIn)))
 
@@ -84,7 +105,7 @@ def v_byteorder(test, func, rwt):
     if 'byteorder' not in norm(test):
         return False
     s, notin = _lit_set(test)
-    return s == {'little', 'big'} and notin == rwt
+    return s == {'little', 'big'} and notin == rwt and is_raw_field(_membership_operand(test), func, 'byteorder')
 
 
 VALIDATORS = [
@@ -109,9 +130,9 @@ def run(ctx):
         ctx.decide(ok, 'R-DOM', 'D1', reader, None, f'validator::{label}',
                    f'every normal path through {reader.qualname} passes the test "{label}" (raising '
                    f'{"/".join(sorted(excs))})',
-                   detail=(bad[0] if bad else 'no raising test of this kind dominates the reader\'s '
-                           'normal return (removed, weakened to a warning, made conditional, or '
-                           'moved after the return)'))
+                   detail=(bad[0] if bad else 'no raising test of this kind on the stored field itself '
+                           'dominates the reader\'s normal return (removed, weakened to a warning, made '
+                           'conditional, moved after the return, or applied to a transformed value)'))
     # required keys
     rk = get_arg(rcall, 1, 'requiredkeys')
     val = None
